@@ -1032,6 +1032,34 @@ func c11ChunkCases(pl c11ChunkPlan) []c11Case {
 	return out
 }
 
+// c11LargeCases: histories that take a buffer well past 64 KiB, Reset it and fill it again past
+// that size (twice, with other write sizes), observed after every step: whatever a Reset does to
+// the backing memory or file (shrink, remap, keep) must leave capacity bookkeeping and mapping in
+// step. One case per buffer kind x mode x write operation.
+func c11LargeCases() []c11Case {
+	var out []c11Case
+	cfgs := []c11Cfg{{Kind: "mmap", Cap: 0}, {Kind: "automap", Cap: 0, Thresh: 100}, {Kind: "automap", Cap: 0, Thresh: 40000}, {Kind: "calloc", Cap: 64}}
+	for _, cfg := range cfgs {
+		for _, mo := range [][2]string{{"bytes", "W"}, {"bytes", "A"}, {"bytes", "AO"}, {"slices", "WS"}, {"slices", "SA"}} {
+			var h []c11Ev
+			rep := func(n, sz int) {
+				for i := 0; i < n; i++ {
+					h = append(h, c11Ev{Op: mo[1], N: sz})
+				}
+			}
+			rep(9, 8000)
+			h = append(h, c11Ev{Op: "R"})
+			rep(9, 8000)
+			h = append(h, c11Ev{Op: "R"})
+			rep(3, 30000)
+			h = append(h, c11Ev{Op: "R"})
+			rep(20, 4000)
+			out = append(out, c11Case{Kind: "history", Mode: mo[0], Cfg: cfg, Hist: h})
+		}
+	}
+	return out
+}
+
 func c11ChunkShard(name string, cases []c11Case, dir string, deadline time.Time) (res c11Res) {
 	debug.SetPanicOnFault(true)
 	t0 := time.Now()
@@ -1045,6 +1073,11 @@ func c11ChunkShard(name string, cases []c11Case, dir string, deadline time.Time)
 		res.Sorts++
 		res.Traces++
 		if v := c11RunCase(c, dir); v != nil {
+			if c.Kind == "history" {
+				v.What = fmt.Sprintf("large history on %v (%s mode): %s: %s", c.Cfg, c.Mode, c11HistString(c.Hist)[:60]+" ...", v.What)
+				res.viols = append(res.viols, c11VRec{v, c})
+				continue
+			}
 			keys := fmt.Sprintf("periodic keys %v", c.Pattern)
 			if len(c.Pattern) == 0 {
 				keys = fmt.Sprintf("key %d for the first %d slices then key %d", c.A, c.Split, c.B)
@@ -1202,6 +1235,8 @@ func c11(tier string, r *ev.Run, replay string) {
 	}
 	nBFS := len(callocJobs) + len(fileJobs)
 	chunk := c11ChunkCases(plan)
+	large := c11LargeCases()
+	chunk = append(chunk, large...)
 	shards := 1
 	if workers > 1 {
 		shards = 4 * workers
@@ -1322,6 +1357,7 @@ func c11(tier string, r *ev.Run, replay string) {
 	r.Cov["chunk_family"] = chunkRes
 	r.Cov["temp_files_left_after_release"] = filesLeft
 	r.Cov["workers"] = workers
+	r.Cov["large_reset_refill_histories"] = len(large)
 	r.Cov["rule"] = "BFS per (mode, configuration): every event of the alphabet from every distinct reachable state up to the depth bound, a successor = replay of the shortest history on a fresh real z.Buffer + one event judged against the reference model; state key = (bufType, curSz, offset, padding, len(buf), epoch, sha1(Bytes())). Sort: each of 4 comparison functions on every slice-mode state of depth <= 5 (primary configuration calloc(cap=64): times every {0,1,2} key assignment of the non-empty slices, up to the stated depth); chunk family: n x key pattern x payload x comparison function, SortSlice and SortSliceBetween over marked sub-ranges."
 	r.Assume = []string{
 		"fill bytes are a function of (number of Resets so far, content position), never zero: a lost, shifted or stale byte differs from the model; which API call wrote a byte is not encoded in the byte (histories that differ only in how the same byte count was split merge into one state — every event is still executed from every such state)",
